@@ -56,7 +56,7 @@ _QUERY_ASSUME = ["column names are resolved to positions by the harness (Header.
 PROPS["C03"] = dict(
     theorem_file="Properties/C03.v", kinds=_QUERY_KINDS, expected=_QUERY_EXPECTED,
     trusted=COMMON_TRUST + [FLOAT_TRUST, ORACLE_TRUST], assumptions=_QUERY_ASSUME,
-    level_text="Proof: Coq theorems (Properties/C03.v) over ALL tables and conditions: WHERE returns exactly the order-preserving sublist of rows whose condition is TRUE (an evaluation error is an error of the whole clause, never a partial result); CROSS/INNER/LEFT/RIGHT/FULL joins of the model equal their list-comprehension definitions, with membership characterisations (pairs with a TRUE condition; each unmatched row exactly once, NULL-padded; nothing else) and compositionality over contiguous ranges of left rows (the goroutine split). The model (Model/Query.v: sources incl. derived tables, joins nested to any depth, WHERE, select list) is tied to the code by running generated queries through parser.Parse + query.Select at cpu 1 and 4 and comparing rows (sequence for single sources, multiset for joins) with eval_query inside Coq. Common table expressions (several references) are expanded to derived tables; USING and NATURAL joins are a derived form of the model (Model/Using.v src_using): the join on the equality of the named columns followed, row by row and in the join's order, by one merged column per name (the left operand's value - the right one's for RIGHT joins - or the other side's where that is NULL) and the remaining columns of both sides (C03_using_join_merges_the_named_columns_once); the harness computes only the column positions from the names. LATERAL joins and recursive common table expressions are part of the model (SrcLateral / SrcRec carry the derived table resp. the recursive term as a Gallina function of the left row resp. of the rows of the temporary view; the harness emits them as lambdas): C03_lateral_join_rows (the rows are, per left row and in order, the CROSS/INNER/LEFT join of that row alone with the derived table evaluated for it; iff), C03_lateral_without_reference_is_the_plain_join, C03_lateral_error_is_total, C03_lateral_right_full_rejected, C03_recursive_cte_rows (base rows followed by the chain of iterations up to the first empty one, combined by UNION ALL or UNION; iff, with the iteration limit), C03_recursive_cte_iterations_are_determined, C03_recursive_cte_limit_is_an_error, C03_recursive_union_keeps_one_row_per_key; both are generated (LATERAL with aggregates / LIMIT inside and joins, derived tables or CTEs on the left; recursive counters and key walks under --limit-recursion 3/5/8/1000) and compared like every other query. Partial: sub-queries inside expressions (EXISTS / IN / scalar) and name resolution are not modelled; the former are covered by fixed scenarios only.",
+    level_text="Proof: Coq theorems (Properties/C03.v) over ALL tables and conditions: WHERE returns exactly the order-preserving sublist of rows whose condition is TRUE (an evaluation error is an error of the whole clause, never a partial result); CROSS/INNER/LEFT/RIGHT/FULL joins of the model equal their list-comprehension definitions, with membership characterisations (pairs with a TRUE condition; each unmatched row exactly once, NULL-padded; nothing else) and compositionality over contiguous ranges of left rows (the goroutine split). The model (Model/Query.v: sources incl. derived tables, joins nested to any depth, WHERE, select list) is tied to the code by running generated queries through parser.Parse + query.Select at cpu 1 and 4 and comparing rows (sequence for single sources, multiset for joins) with eval_query inside Coq. Common table expressions (several references) are expanded to derived tables; USING and NATURAL joins are a derived form of the model (Model/Using.v src_using): the join on the equality of the named columns followed, row by row and in the join's order, by one merged column per name (the left operand's value - the right one's for RIGHT joins - or the other side's where that is NULL) and the remaining columns of both sides (C03_using_join_merges_the_named_columns_once); the harness computes only the column positions from the names. LATERAL joins and recursive common table expressions are part of the model (SrcLateral / SrcRec carry the derived table resp. the recursive term as a Gallina function of the left row resp. of the rows of the temporary view; the harness emits them as lambdas): C03_lateral_join_rows (the rows are, per left row and in order, the CROSS/INNER/LEFT join of that row alone with the derived table evaluated for it; iff), C03_lateral_without_reference_is_the_plain_join, C03_lateral_error_is_total, C03_lateral_right_full_rejected, C03_recursive_cte_rows (base rows followed by the chain of iterations up to the first empty one, combined by UNION ALL or UNION; iff, with the iteration limit), C03_recursive_cte_iterations_are_determined, C03_recursive_cte_limit_is_an_error, C03_recursive_union_keeps_one_row_per_key; both are generated (LATERAL with aggregates / LIMIT inside and joins, derived tables or CTEs on the left; recursive counters and key walks under --limit-recursion 3/5/8/1000) and compared like every other query. Correlated sub-queries inside expressions are stated through the LATERAL join: [NOT] EXISTS, x [NOT] IN (SELECT ..) in a WHERE clause and aggregate sub-queries in a select list are generated as SQL and handed to the model as the LATERAL join with a counting (resp. one-value) derived table joined on count > 0 / = 0 (C03_exists_and_in_subqueries_as_lateral_counts, C03_scalar_subquery_as_lateral_column say what that form yields; that it is what the SQL form means is the harness's translation). C03_lateral_join_membership gives the relational reading of INNER / LEFT JOIN LATERAL. Partial: name resolution is not modelled; ANY / ALL sub-queries, row-value sub-queries and sub-queries in other positions are covered by fixed scenarios only.",
     level_note="Trusted: Coq kernel + vm_compute; primitive floats; Go harness incl. its resolution of column names to positions; string oracles. Join results are compared as multisets (the property does not fix join order).",
     design_ref="DESIGN.md section 5 (C03)")
 
@@ -64,11 +64,12 @@ PROPS["C04"] = dict(
     theorem_file="Properties/C04.v",
     kinds={1: ("key-or-query-mismatch", "SerializeComparisonKeys / GROUP BY / DISTINCT / set operator / aggregate result differs from the model (Model.Key, Model.Query)", True),
            2: ("bucket-identity", "on the observed key strings two different tuples share a key or two equal tuples got different keys", True),
-           4: ("oracle-wf", "string oracle inconsistent with the modelled parsers", True)},
-    expected=lambda kind, cid: ("Eval vm_compute in (map expected_keys (filter (fun c => N.eqb (kid c) %d) kcases))." % cid) if cid >= 1000000 else _QUERY_EXPECTED(kind, cid),
+           4: ("oracle-wf", "string oracle inconsistent with the modelled parsers", True),
+           5: ("bucket-members", "the rows listed by LISTAGG(rid) for the buckets of a GROUP BY query are not the model's buckets (Model.Query.bucket_idx): an aggregate was given other rows than those of its bucket", True)},
+    expected=lambda kind, cid: ("Eval vm_compute in (map expected_members (filter (fun c => N.eqb (bid c) %d) bcases))." % cid) if cid >= 2000000 else ("Eval vm_compute in (map expected_keys (filter (fun c => N.eqb (kid c) %d) kcases))." % cid) if cid >= 1000000 else _QUERY_EXPECTED(kind, cid),
     trusted=COMMON_TRUST + [FLOAT_TRUST, ORACLE_TRUST, "strconv.FormatFloat(f,'f',-1,64) never emits ':' or '\\' and is injective on floats up to the identification of NaNs (hypothesis of C04_key_injective; the decimal text of every float met is carried as data and compared)"],
-    assumptions=_QUERY_ASSUME + ["MEDIAN, STDEV/VAR, LISTAGG, JSON_AGG and user-defined aggregates are not modelled (their bucket is the same group_rows bucket; only COUNT/SUM/AVG/MIN/MAX [DISTINCT] and COUNT(*) are compared)"],
-    level_text="Proof: Coq theorems (Properties/C04.v): the comparison-key codec (after the repair that escapes the separator) is injective on tuples of equal length - same key string iff equal normal forms column by column (decoder proof over all strings; the unrepaired codec is refuted by a witness); key equality is an equivalence; GROUP BY buckets are a partition of the rows with no empty bucket; two rows share a bucket iff their keys are equal; the groups handed to the aggregates partition the filtered rows; DISTINCT/UNION keep exactly one row per bucket; EXCEPT/INTERSECT [ALL] keep exactly the rows whose key is absent/present. Tied to the code (i) by calling query.SerializeComparisonKeys on adversarial tuples (separator, tags, cross-type equal values, NULL/UNKNOWN, strict-equal) and comparing every key string and the bucket identity, (ii) by GROUP BY/DISTINCT/set-operator/aggregate queries through parser+query.Select compared with the model. Partial: MEDIAN/STDEV/VAR/LISTAGG/JSON_AGG/user aggregates only share the proven bucket, their arithmetic is not modelled.",
+    assumptions=_QUERY_ASSUME + ["the arithmetic of MEDIAN, STDEV/VAR, LISTAGG, JSON_AGG and user-defined aggregates is not modelled: for them the members of every bucket are observed (LISTAGG of a row number) and compared with the model's buckets, and their values are compared with the same aggregate computed by the implementation over exactly those rows; COUNT/SUM/AVG/MIN/MAX [DISTINCT] and COUNT(*) are compared with the model's values"],
+    level_text="Proof: Coq theorems (Properties/C04.v): the comparison-key codec (after the repair that escapes the separator) is injective on tuples of equal length - same key string iff equal normal forms column by column (decoder proof over all strings; the unrepaired codec is refuted by a witness); key equality is an equivalence; GROUP BY buckets are a partition of the rows with no empty bucket; two rows share a bucket iff their keys are equal; the groups handed to the aggregates partition the filtered rows; DISTINCT/UNION keep exactly one row per bucket; EXCEPT/INTERSECT [ALL] keep exactly the rows whose key is absent/present. Tied to the code (i) by calling query.SerializeComparisonKeys on adversarial tuples (separator, tags, cross-type equal values, NULL/UNKNOWN, strict-equal) and comparing every key string and the bucket identity, (ii) by GROUP BY/DISTINCT/set-operator/aggregate queries through parser+query.Select compared with the model. (iii) by observing the members of every bucket (LISTAGG of a row number, at cpu 1 and 4, tables up to 370 rows) and comparing them with Model.Query.bucket_idx inside Coq (C04_aggregates_get_the_rows_of_their_bucket: the rows handed to ANY aggregate are the rows at these positions), and by comparing MEDIAN, STDEV(P), VAR(P), JSON_AGG, LISTAGG, a user-defined aggregate and COUNT/SUM DISTINCT of every bucket with the same aggregate computed by the implementation over exactly those rows. Partial: the arithmetic of these latter aggregates is not modelled.",
     level_note="Trusted: Coq kernel + vm_compute; primitive floats (FloatAxioms); FormatFloat oracle; Go harness; string oracles.",
     design_ref="DESIGN.md section 5 (C04)")
 
